@@ -258,6 +258,22 @@ class Enumerator:
                 retry = {"cls": "blocked", "cid": "-", "data": "-", "truth": True}
             else:
                 retry = box["r"]
+        # C08: "afterwards every pid, cid and metadata document that was involved can be
+        # operated on again without blocking" - a delete / store / delete round on the pid of
+        # the failed call (whatever the calls answer, they must come back)
+        pid = self.call.get("pid", "-")
+        if not blocked and pid != "-":
+            cname = self.call["c"] if self.call.get("c", "-") in self.inst.content else sorted(self.inst.content)[0]
+            for fu in (dict(op="delete", pid=pid, c="-", val="-", fmt="-", ver="-"),
+                       dict(op="store", pid=pid, c=cname, val="none", fmt="-", ver="-"),
+                       dict(op="delete", pid=pid, c="-", val="-", fmt="-", ver="-")):
+                t = threading.Thread(target=lambda fu=fu: drv.call(fu), daemon=True)
+                t.start()
+                t.join(10)
+                if t.is_alive():
+                    blocked = True
+                    rec["followup_blocked"] = fu["op"]
+                    break
         rec["retry"] = retry
         rec["blocked"] = blocked
         return rec
